@@ -86,20 +86,23 @@ TruncPoints(len, bounds, dense) ==
 (* s: shape of one file at snapshot k of a run, relative to snapshot k-1:          *)
 (*   has_new, new_len, old_len (0 when the file did not exist), nch = number of    *)
 (*   changed blocks, hdr_changed, bounds, dense, trunc (file differs from the      *)
-(*   previous snapshot, so its truncations are new images), intact                 *)
+(*   previous snapshot, so its truncations are new images), intact, inplace (the   *)
+(*   file existed at the last sync and was rewritten in place - same inode; a file *)
+(*   replaced by rename or newly created has no old blocks to mix with: its crash  *)
+(*   images are its own prefixes, covered by the truncation faults)                *)
 Descriptors(s) ==
     LET lens == {s.old_len, s.new_len}
         D(kind, j, len) == [run |-> s.run, k |-> s.k, f |-> s.f, kind |-> kind, j |-> j, len |-> len]
     IN  (IF s.intact THEN { D("intact", 0, s.new_len) } ELSE {})
         \cup (IF s.has_new /\ s.trunc
               THEN { D("truncate", n, n) : n \in TruncPoints(s.new_len, s.bounds, s.dense) } ELSE {})
-        \cup (IF s.has_new /\ s.nch >= 1
+        \cup (IF s.has_new /\ s.inplace /\ s.nch >= 1
               THEN { D("mixture", j, L) : j \in 0..s.nch, L \in lens }
                    \ { D("mixture", 0, s.old_len), D("mixture", s.nch, s.new_len) }
               ELSE {})
-        \cup (IF s.has_new /\ s.nch >= 2
+        \cup (IF s.has_new /\ s.inplace /\ s.nch >= 2
               THEN { D("rollback", b, s.new_len) : b \in 1..s.nch } ELSE {})
-        \cup (IF s.has_new /\ s.nch >= 2 /\ s.hdr_changed
+        \cup (IF s.has_new /\ s.inplace /\ s.nch >= 2 /\ s.hdr_changed
               THEN { D("hdr_new_data_old", 0, L) : L \in lens }
                    \cup { D("data_new_hdr_old", 0, L) : L \in lens }
               ELSE {})
